@@ -83,10 +83,16 @@ def vector(req):
     sim.info.update({"config/names": ["Nickname String"], "config/defaults": ["Nickname Unnamed"],
                      "onions/current": "", "onions/detached": ""})
     adds, dels = [], []
+    wdels = [0]         # DEL_ONION commands that belong to the warm-up service
     warm = [0]          # ADD_ONION commands that belong to the warm-up service (req["reuse"])
+
+    refuse = [0]        # ADD_ONION commands Tor refuses first (req["history"] == "refused")
 
     def add_onion(line):
         adds.append(line)
+        if refuse[0]:
+            refuse[0] -= 1
+            return b"551 Failed to generate onion address\r\n"
         sid = SID if len(adds) > warm[0] else "warmupwarmupwar3"
         if req.get("viator"):
             sid = "warmupwarmupwar3" if WARM_PORT in line else SID
@@ -98,7 +104,7 @@ def vector(req):
 
     def del_onion(line):
         dels.append(line)
-        if req.get("delfail") and len(dels) == 1:
+        if req.get("delfail") and len(dels) - wdels[0] == 1 and "warmup" not in line:
             return b"551 Internal error\r\n"        # the first removal attempt fails: the service is still there
         return b"250 OK\r\n"
     sim.handlers["ADD_ONION"] = add_onion
@@ -169,6 +175,25 @@ def vector(req):
             sim.event("650 HS_DESC UPLOADED warmupwarmupwar3 UNKNOWN $%s\r\n" % ("CD" * 20))
             d = defer.Deferred()        # (already wired above)
         else:
+            hist = req.get("history")
+            if hist in ("removed", "refused"):
+                # earlier on this connection the application ran a service from the same key and removed it again (a
+                # restart), or Tor refused its first attempt; the request under test is unaffected by either
+                warm[0] = 1
+                refuse[0] = 1 if hist == "refused" else 0
+                got = []
+                w = EphemeralOnionService.create(reactor, config, [8080], private_key=pk, version=req["version"])
+                w.addBoth(got.append)
+                reactor.turn()
+                sim.pump()
+                sim.event("650 HS_DESC UPLOAD warmupwarmupwar3 UNKNOWN $%s desc\r\n" % ("CD" * 20))
+                sim.event("650 HS_DESC UPLOADED warmupwarmupwar3 UNKNOWN $%s\r\n" % ("CD" * 20))
+                if got and not isinstance(got[0], failure.Failure):
+                    got[0].remove().addErrback(lambda f: None)
+                    sim.pump()
+                warm[0] = len(adds)
+                wdels[0] = len(dels)
+                reactor.given[:] = []
             d = EphemeralOnionService.create(reactor, config, ports, detach=req["detach"], private_key=pk,
                                              version=req["version"], single_hop=req["single"])
         d.addBoth(fired.append)
@@ -191,6 +216,7 @@ def vector(req):
             except StopIteration:
                 p["loc"] = "?"
     adds = adds[warm[0]:]
+    del dels[:wdels[0]]
     if req.get("viator"):
         adds = [a for a in adds if WARM_PORT not in a]        # (the two requests' commands may go out in either order)
     obs = dict(rejected=rejected, nadd=len(adds), key=["", ""], ports=[], flags=[], cauth=[], hostname="", stored=[],
